@@ -337,6 +337,32 @@ pub fn run(rep: &mut Report, cfg: &Cfg, group: Group, check: &'static str) {
                         r.reg_case(pat, f, other, x, ccr);
                     }
                 }
+                // ... and as the RESULT: operands from which sums, differences, logic combinations,
+                // complements and one-bit shifts / rotations produce the constant
+                let m = width.mask();
+                let msb = (m >> 1) + 1;
+                let v = *v & m;
+                let b = gen::data(&mut r.rng, width);
+                let pairs: [(u32, u32); 13] = [
+                    (v.wrapping_sub(b) & m, b),
+                    (v.wrapping_add(b) & m, b),
+                    (v, 0),
+                    (v, m),
+                    (!v & m, b),
+                    (v.wrapping_neg() & m, b),
+                    (v >> 1, b),
+                    ((v >> 1) | msb, b),
+                    ((v << 1) & m, b),
+                    (((v << 1) | 1) & m, b),
+                    (((v << 1) | (v >> (width.bits() - 1))) & m, b),
+                    ((v >> 1) | ((v & 1) << (width.bits() - 1)), b),
+                    (v ^ b, b),
+                ];
+                for (d, s) in pairs {
+                    let f = shard_fields(frng);
+                    let ccr = r.rng.u8();
+                    r.reg_case(pat, f, d, s, ccr);
+                }
             }
             r.rep.count("source_dictionary_values", dict.len() as u64);
         }
